@@ -59,6 +59,12 @@ func encodeValue(sb *strings.Builder, v reflect.Value, info *wireInfo, depth int
 		sb.WriteString("L ")
 		return
 	}
+	// a function value held by value (array functions dereference their members): still a
+	// function value, and it marshals as "" through the embedded callableMarshaler
+	if v.Kind() == reflect.Struct && reflect.PtrTo(v.Type()).Implements(typeCallable) {
+		sb.WriteString("L ")
+		return
+	}
 	switch v.Kind() {
 	case reflect.Interface, reflect.Ptr:
 		if v.IsNil() {
